@@ -191,6 +191,9 @@ def prop_C18(ctx, tier):
     run.require('C18-M4', 'library functions that empty a cache', nclr, 1)
     from . import rules_core as K
     K.check_orphan_tolerance(run, ctx, 'C18-P1')
+    L.check_probe_under_queue_lock(run, ctx, 'C18-M5')
+    nm6 = K.check_lookup_purge_pairing_free(run, ctx, 'C18-M6')
+    run.require('C18-M6', 'lookup specialisations', nm6, 36)
     # the bound after quiescence rests on the queue length being what the sync global overflow test re-establishes (C04-K1)
     scratch = Run('C18', tier, '')
     K.check_overflow_form(scratch, ctx)
